@@ -39,6 +39,21 @@ Clause -> case family
   "disconnecting the network stops the PDO tasks of all its nodes"
         enum/disconnect (every subset of 4 maps on 2 nodes x order of disconnects), history
   "buses whose cyclic tasks can and cannot modify data in place": `mod` is drawn / enumerated everywhere.
+
+Finding F1 (genuine defect of the unchanged tree, kept out of the domain by construction and counted as
+excluded): PdoMap.start() hands its own bytearray `self.data` to can.Message, which keeps bytearrays by
+reference.  A PDO variable write (or `map.data[:] = ...; map.update()`) then changes Message.data before
+PeriodicMessageTask.update() compares "old" and new data, finds them equal and - on a bus without
+modify_data - does not restart the task: the adapter keeps sending the payload from start().  Minimal
+input: mod=False, [pdo_start(0.1), pdo_write(var 0 := 1)] -> live 185#000000, expected 185#010000.
+Only the first in-place change after each start() is affected (update() un-aliases the message).
+The generators avoid exactly this class (history: an update() without change is inserted first;
+enumeration: such sequences are reported as excluded); `known/F1` holds the two minimal inputs.
+
+Deviations from DESIGN.md: the recording task of simbus keeps the can.Message by reference, which would
+hide F1; this module uses its own by-value task (SnapTask).  NMT command PRE-OPERATIONAL from the bus while
+the node is INITIALISING, start(0) while running and PdoMap.period assignment while running are not
+generated (the property does not determine the outcome).
 """
 import math
 
@@ -47,7 +62,7 @@ from hypothesis import strategies as st
 from harness import refcodec as rc
 from harness.core import Discrepancy, Outcome
 from harness.odutil import build_od
-from harness.ref_c17 import F1, Model, field_range, type_width
+from harness.ref_c17 import F1, Model, field_range, type_width, valid_period
 from harness.simbus import Frame, Hub, Port
 
 PROPERTY = "C17"
@@ -350,7 +365,6 @@ def run_case(case) -> Outcome:
     rig = Rig(case)
     D = []
     flags = set()
-    kinds = set()
     d0 = compare(model, rig.live(), "after set-up")
     if d0:
         D.append(d0)
@@ -359,7 +373,6 @@ def run_case(case) -> Outcome:
             break
         v = model.apply(op)
         flags |= v.flags
-        kinds.add(_producer(op))
         tag = f"step {i} {_show_op(op)}"
         exc = None
         try:
@@ -645,7 +658,7 @@ def _pdo_op(draw, model, key):
         kinds += ["assign"] * 2
     if connected:
         kinds += ["start"] * 5
-        if valid(m.period):
+        if valid_period(m.period):
             kinds += ["start_noarg"] * 3
         if m.running is None:
             kinds += ["start0", "period"]
@@ -684,11 +697,6 @@ def _pdo_op(draw, model, key):
         ts = round((m.last_ts or 100.0) + pick(draw, ([0.001, 0.01, 0.25, 1.0, 3.5])), 6)
         return {"op": "pdo_rx", "data": draw(_bin(n)), "ts": ts, **a}
     raise KeyError(kind)
-
-
-def valid(p):
-    from harness.ref_c17 import valid_period
-    return valid_period(p)
 
 
 @st.composite
@@ -767,4 +775,9 @@ def search(ctx):
     ctx.enumerate(enum_hb(4 if thorough else 3), f"heartbeat: all op sequences up to length {4 if thorough else 3}")
     ctx.enumerate(enum_pdo(5 if thorough else 3), f"pdo: all op sequences up to length {4 if thorough else 2} on two map variants, length "
                   f"{5 if thorough else 3} dealt alternately to the variants")
-    ctx.hypothesis(history(60), 12000 if thorough else 1600)
+    # random histories in rounds, so that an exhausted time budget stops the generation as well
+    rounds, per_round = (12, 1000) if thorough else (4, 400)
+    for k in range(rounds):
+        if ctx.over_budget():
+            break
+        ctx.hypothesis(history(60), per_round, salt=k)
